@@ -24,6 +24,7 @@ RE_INT = re.compile(r"-?[0-9]+(?:[eE]\+?[0-9]+)?")
 # RE_FLOAT includes numbers with a negative exponent and no decimal point.
 RE_FLOAT = re.compile(r"(:?-?[0-9]+\.[0-9]+(?:[eE][+-]?[0-9]+)?)|(-?[0-9]+[eE]-[0-9]+)")
 RE_FUNCTION_NAME = re.compile(r"[a-z][a-z_0-9]*")
+RE_FUNCTION_CALL = re.compile(r"[a-z][a-z_0-9]*(?=\()")
 ESCAPES = frozenset(["b", "f", "n", "r", "t", "u", "/", "\\"])
 
 
@@ -421,6 +422,15 @@ def lex_inside_filter(l: Lexer) -> Optional[StateFn]:  # noqa: D103, PLR0915, PL
             l.emit(TokenType.AND)
         elif l.accept("||"):
             l.emit(TokenType.OR)
+        elif l.accept_match(RE_FUNCTION_CALL):
+            # A name immediately followed by "(" is a function call, even if the
+            # name starts with (or is) `true`, `false` or `null`.
+            # Keep track of parentheses for this function call.
+            l.func_call_stack.append(1)
+            l.emit(TokenType.FUNCTION)
+            l.bracket_stack.append(("(", l.pos))
+            l.next()
+            l.ignore()  # ignore LPAREN
         elif l.accept("true"):
             l.emit(TokenType.TRUE)
         elif l.accept("false"):
@@ -431,13 +441,6 @@ def lex_inside_filter(l: Lexer) -> Optional[StateFn]:  # noqa: D103, PLR0915, PL
             l.emit(TokenType.FLOAT)
         elif l.accept_match(RE_INT):
             l.emit(TokenType.INT)
-        elif l.accept_match(RE_FUNCTION_NAME) and l.peek() == "(":
-            # Keep track of parentheses for this function call.
-            l.func_call_stack.append(1)
-            l.emit(TokenType.FUNCTION)
-            l.bracket_stack.append(("(", l.pos))
-            l.next()
-            l.ignore()  # ignore LPAREN
         else:
             l.error(f"unexpected filter selector token {c!r}")
             return None
